@@ -166,7 +166,21 @@ pub fn one_shot(input: &[u8]) -> OneShot {
     }
 }
 
+/// The partition as given, and the same partition with an empty chunk in front,
+/// between every two chunks and at the end (zero-length writes / empty
+/// `strip_next` calls are legal and must change nothing).
 pub fn check_partition(input: &[u8], one: &OneShot, chunks: &[&[u8]], str_ok: bool) -> Result<(), String> {
+    check_partition_inner(input, one, chunks, str_ok)?;
+    let mut with_empties: Vec<&[u8]> = Vec::with_capacity(chunks.len() * 2 + 1);
+    with_empties.push(&[]);
+    for c in chunks {
+        with_empties.push(c);
+        with_empties.push(&[]);
+    }
+    check_partition_inner(input, one, &with_empties, str_ok).map_err(|e| format!("{e} (with empty chunks interleaved)"))
+}
+
+fn check_partition_inner(input: &[u8], one: &OneShot, chunks: &[&[u8]], str_ok: bool) -> Result<(), String> {
     let show = || {
         chunks
             .iter()
